@@ -286,24 +286,24 @@ def run(rep):
     cs = callers_of(prog, lambda d: is_method_of(d, STATE, "revocation_pair"))
     rep.floor("callers of State::revocation_pair", len(cs), 1)
     for b, bi, t in cs:
-        root = root_body(prog, b)
-        if lock is not None and root.id == lock.id:
-            rep.ok("revocation", "who-may-call revocation_pair <- Started::lock", sample=root.path)
-        else:
-            rep.fail("revocation", "who-may-call revocation_pair <- " + root.desc.get("qpath", "?"), "State::revocation_pair (releases the revocation secret) is called outside Started::lock, in %s" % root.path, site=b.loc(t.get("ln")))
+        for root in owners_of(prog, b, stop=lambda r: lock is not None and r.id == lock.id):
+            if lock is not None and root.id == lock.id:
+                rep.ok("revocation", "who-may-call revocation_pair <- Started::lock", sample=root.path + " (directly or through a private helper used only by it)")
+            else:
+                rep.fail("revocation", "who-may-call revocation_pair <- " + root.desc.get("qpath", "?"), "State::revocation_pair (releases the revocation secret) is called outside Started::lock, in %s" % root.path, site=b.loc(t.get("ln")))
     for b, bi, s in who_constructs(prog, LOCKMSG):
-        root = root_body(prog, b)
-        if lock is not None and root.id == lock.id:
-            rep.ok("revocation", "who-may-construct LockMessage", sample=root.path)
-        else:
-            rep.fail("revocation", "who-may-construct LockMessage in " + root.desc.get("qpath", "?"), "LockMessage is constructed outside Started::lock", site=b.loc())
+        for root in owners_of(prog, b):
+            if lock is not None and root.id == lock.id:
+                rep.ok("revocation", "who-may-construct LockMessage", sample=root.path)
+            else:
+                rep.fail("revocation", "who-may-construct LockMessage in " + root.desc.get("qpath", "?"), "LockMessage is constructed outside Started::lock", site=b.loc())
     allowed = {"Requested": {("Requested", "new")}, "Inactive": {("Requested", "complete")}, "Ready": {("Inactive", "activate"), ("Locked", "unlock")},
                "Started": {("Ready", "start")}, "Locked": {("Started", "lock")}}
     for stage, ok_sites in allowed.items():
         sites = who_constructs(prog, STAGES[stage])
         rep.floor("construction sites of " + stage, len(sites), 1)
         for b, bi, s in sites:
-            root = root_body(prog, b)
+          for root in owners_of(prog, b):
             st = root.desc.get("self_ty")
             owner = strip_refs(st)[1].split("::")[-1] if st is not None and strip_refs(st)[0] == "adt" else "?"
             k = "%s <- %s::%s" % (stage, owner, root.desc.get("name"))
